@@ -1,3 +1,4 @@
+pub mod ast_norm;
 pub mod engine;
 pub mod json;
 pub mod props;
